@@ -40,6 +40,8 @@ def dump_ns(system, o, children_of):
              'ok': key == c.name and system.allobjects.get(c.fullName()) is c}
         if t == 'C':
             e['c'], e['old'] = dump_ns(system, c, children_of), old_of(c, children_of)
+        elif c.contents:
+            e['c'] = dump_ns(system, c, children_of)        # something documented inside a function / attribute
         out.append(e)
     return out
 
